@@ -63,7 +63,7 @@ class _RefDevice:
 KINDS = ('ioerr', 'eof', 'foreign', 'kbd', 'base')
 
 
-def make_exc(kind):
+def make_exc(kind, variant=0):
     from flipjump.utils.exceptions import IODeviceException, IOReadOnEOF
 
     class PlannedIOError(IODeviceException):
@@ -77,7 +77,12 @@ def make_exc(kind):
     if kind == 'eof':
         return IOReadOnEOF('planned eof')
     if kind == 'foreign':
-        return ValueError('planned foreign failure')
+        # any exception class that is not the library's: plain, OSError family (the library's IODeviceException derives from
+        # IOError, these do not), custom
+        class PlannedCustom(Exception):
+            pass
+        return (ValueError('planned foreign failure'), BrokenPipeError(32, 'planned broken pipe'), TimeoutError('planned timeout'),
+                OSError(28, 'planned: no space left on device'), PlannedCustom('planned'), RuntimeError('planned'))[variant % 6]
     if kind == 'kbd':
         return KeyboardInterrupt()
     return PlannedBase('planned base exception')
@@ -146,7 +151,7 @@ def run_fault_case(case):
             # all engines on k == 1 and the drawn few; round-robin otherwise (every config is hit for every kind over k)
             cfgs = CONFIGS if k <= 2 else [CONFIGS[(k + ki + j) % len(CONFIGS)] for j in range(3)]
             for eng, last_len, knobs in cfgs:
-                exc = make_exc(kind)
+                exc = make_exc(kind, k + runs)
                 dev = engines.make_rec_device(case['input_bits'], script=_Plan(k, exc))
                 o = engines.run_engine(path, eng, dev, last_len=last_len, knobs=knobs)
                 runs += 1
